@@ -302,6 +302,8 @@ func (c *Cluster) PingNode(host string) (bool, error) {
 	if err != nil {
 		return false, err
 	}
+	// the probe handle is not part of the cluster: nobody else will ever close its connection pool
+	defer node.Close()
 	ok, err := node.Ping()
 	if err != nil && IsErrorDubious(err) {
 		return false, err
